@@ -194,7 +194,10 @@ func (b *listParser) Continue(node ast.Node, reader text.Reader, pc Context) Sta
 	lastIsEmpty := node.LastChild().ChildCount() == 0
 	indent, _ := util.IndentWidth(line, reader.LineOffset())
 
-	if indent < offset || lastIsEmpty {
+	// (an empty last item only matters here once a blank line has followed
+	// it: directly after the marker line, a line indented to the content
+	// column is the content of an item that begins with a blank line)
+	if indent < offset || (lastIsEmpty && pc.Get(emptyListItemWithBlankLines) != nil) {
 		if indent < 4 {
 			match, typ := matchesListItem(line, false) // may have a leading spaces more than 3
 			if typ != notList && indent-offset < 4 {
